@@ -60,6 +60,21 @@ let handle (line : ostr) : ostr =
     res_out (fun rs -> "[" ^ OS.concat "," (List.map (fun (rows, out) ->
         "{\"rows\":[" ^ OS.concat "," (List.map row_out rows) ^ "],\"out\":\"" ^ hex_of_bytes out ^ "\"}") rs) ^ "]")
       (tab_root tab_T c fuel n (to_bytes (string_of_hex id)) (b 3) (inc po) (inc pi) (to_bytes (string_of_hex orig)) (to_bytes (string_of_hex igs)))
+  | ["tabspec"; tree] ->
+    (* specification of the rows of ONE statement (Spec/TabSpec.v): choices in product order and linkage entries *)
+    let n = node_of_string tree in
+    (match stmt_of_node n with
+     | Ok s ->
+       let t = tab_T.tt_leaf in
+       let cell x = match spec_cell_text x with
+         | Some (c, v) -> "[\"" ^ hex_of_bytes c ^ "\",\"" ^ hex_of_bytes v ^ "\"]"
+         | None -> "[\"" ^ hex_of_bytes (comp_name (node_meta x.l_n) x.l_a) ^ "\",null]" in
+       let rows = spec_rows t s in
+       let ops l = OS.concat " " (List.map (fun o -> of_bytes (op_name o)) l) in
+       let link ((c, o), rs) = "[\"" ^ hex_of_bytes c ^ "\",\"" ^ ops o ^ "\",[" ^ OS.concat "," (List.map (fun i -> string_of_int (int_of_nat i)) rs) ^ "]]" in
+       "ok:{\"choices\":[" ^ OS.concat "," (List.map (fun r -> "[" ^ OS.concat "," (List.map cell r) ^ "]") rows)
+       ^ "],\"links\":[" ^ OS.concat "," (List.map (fun l -> "[" ^ OS.concat "," (List.map link l) ^ "]") (spec_links t s)) ^ "]}"
+     | r -> res_out (fun _ -> "") r)
   | ["link"; tree; p; q] ->
     let n = node_of_string tree in
     let path s = List.map (fun c -> c = '1') (List.init (OS.length s) (OS.get s)) in
